@@ -276,7 +276,9 @@ def run(sc):
         dd = [f for f in vc if not core.bits_equal(vc[f], va[f])]
         if dd:
           lim = (bits | int(sa["overflow"][w])) & (core.OV_ITER | core.OV_LS)
-          bad = [] if lim else core.tol_diff({f: vc[f] for f in CMP}, {f: va[f] for f in CMP}, {"qpos"}, stats=stats, tag="nvmax_vs_ample")
+          # the reference side also carries the smooth forces / accelerations of the world: they set the scale of the force-level tolerance
+          # (a constraint force of 1e-5 N next to smooth forces of 10 N is round-off, not a result)
+          bad = [] if lim else core.tol_diff({f: vc[f] for f in CMP}, {f: va[f] for f in CMP + ["qfrc_smooth", "qacc_smooth"]}, {"qpos"}, stats=stats, tag="nvmax_vs_ample")
           stats["sets"].setdefault("nvmax_vs_ample_bit_identical", []).append("False")
           if bad:
             viols.append({"class": {"oracle": "no_nvmax_bit_but_differs_from_ample", "relation": rel, "jacobian": jac, "field": bad[0][0]},
